@@ -214,7 +214,7 @@ def shard(args):
 
 
 def run(ctx):
-    n = 12 if ctx.tier == 'quick' else 100
+    n = 12 if ctx.tier == 'quick' else 250
     shards = [{'shard': i, 'n': n, 'second': 3 if ctx.tier == 'quick' else 2}
               for i in range(common.NCPU)]
     results = common.run_shards('checks.c02', shards, timeout=3400)
